@@ -582,6 +582,10 @@ for _n, _t in (("fwd_remove_idx0_dn", "index 0, down"), ("fwd_remove_idx3_up", "
     k("h_rev::" + _n, ["C08"], ["mut_bump_vec::MutBumpVec::{try_push,remove,swap_remove,truncate}"], "B",
       "MutBumpVec<u16> of 4 symbolic elements over the contract stub: remove(i), swap_remove(0), truncate(1): same return values, length and contents as std::vec::Vec; buffer and capacity unchanged",
       bound="length 4, %s; allocator = contract stub" % _t, timeout=900)
+for _n, _t in (("shared_remove_idx1_up", "index 1, up"), ("shared_remove_idx3_dn", "index 3 (last), down")):
+    k("h_rev::" + _n, ["C08"], ["bump_vec::BumpVec::{try_push,remove,swap_remove,truncate}", "fixed_bump_vec::FixedBumpVec::{remove,swap_remove,truncate}"], "B",
+      "BumpVec<u16> of 4 symbolic elements over the contract stub: remove(i), swap_remove(0), truncate(1): same return values, length and contents as std::vec::Vec; buffer and capacity unchanged",
+      bound="length 4, %s; allocator = contract stub" % _t, timeout=900)
 for _n, _t in (("rev_truncate_to1_up", "to 1, up"), ("rev_truncate_to3_dn", "to 3, down")):
     k("h_rev::" + _n, ["C08"], ["mut_bump_vec_rev::MutBumpVecRev::truncate"], "B",
       "MutBumpVecRev::truncate keeps the LAST n elements (mirrored, as documented), length and contents checked",
